@@ -247,14 +247,16 @@ def has_sharing(e):
 
 
 def strip_sf(d, root=True):
-    """dump with the sf flag of every non-root node blanked (comparison up to in-place sf writes on shared nodes)."""
+    """dump with the sf flag (and the cached `prop`) of every non-root node blanked: comparison up to in-place
+    writes on nodes that amoco itself shares between two places of a result."""
     if not isinstance(d, list) or not d or not isinstance(d[0], str):
         return d
     k = d[0]
     pos = {"cst": 3, "reg": 3, "ext": 3, "slc": 4, "comp": 2, "tst": 5, "op": 5, "uop": 4, "top": 2, "vec": 3, "vecw": 3}.get(k)
+    ppos = {"op": 6, "uop": 5}.get(k)      # `prop` is stale/recomputed when a shared node is simplified twice in place
     out = []
     for i, x in enumerate(d):
-        if i == pos and not root:
+        if (i == pos or i == ppos) and not root:
             out.append(None)
         elif isinstance(x, list):
             if x and isinstance(x[0], str):
